@@ -28,7 +28,7 @@ Procedure:
 1. Read the property, find the code (anchors are hints), understand the existing tests around it.
 2. Make the change in %(wt)s. Build: `cd %(wt)s && GOFLAGS=-mod=mod GOPROXY=off go build ./...` (leave GOTOOLCHAIN and GOSUMDB unset; the sandbox is offline; first compile of a package is slow, later ones are cached).
 3. Run the existing tests of every package you touched and of the packages that use it most directly (always include `./cmd/restic/` when command behaviour could be affected): `GOFLAGS=-mod=mod GOPROXY=off go test -vet=off -count=1 -timeout 25m <pkgs>`. All must pass with your change. If time permits run `./...`.
-4. Write the demonstration; run it with the change (must fail) and without (`git stash` / `git stash pop` inside your worktree is fine; must pass).
+4. Write the demonstration; run it with the change (must fail) and without (do NOT use `git stash` — the stash is shared between all worktrees of this repository and other agents use it concurrently; instead `git diff > /tmp/mychange.diff && git apply -R /tmp/mychange.diff`, run the demo, then `git apply /tmp/mychange.diff`; must pass).
 5. Deliver into %(outd)s/ : `patch.diff` (output of `git diff` for the source change ONLY — no test files, no demo), `demo/` (the test file(s) or program, with the package directory they belong in noted), and `meta.json` = {"property": "%(pid)s", "summary": "<what was changed>", "why_violates": "...", "needs": "<what it needs in order to manifest>", "files_changed": [...], "demo_run": "<exact command>", "demo_with_change": "<observed failure line>", "demo_without_change": "PASS", "tests_run": "<packages tested with the change and result>"}.
 6. If you have time left, produce a second, mechanically different change for the same property in %(outd)s-2/ (same layout; reset the worktree with `git checkout -- . && git clean -fdq` between the two).
 7. Leave the worktree clean at the end (`git checkout -- . && git clean -fdq`). Final message: 5 lines per change (what, why subtle, demo result, tests run).
